@@ -1005,13 +1005,38 @@ func (m *monC07) Wire(f *Flow, c *Conn, p *WirePkt) {
 	if p.Type == PUBREC {
 		want = 2
 	}
-	// the latest return of a message with that identifier
+	// The message the acknowledgement is for. Acknowledgements go out in the
+	// order of the returns, and identifiers are reused: the oldest return
+	// with that identifier which has no acknowledgement on the wire yet.
+	// Without one it repeats an earlier acknowledgement (a suppressed
+	// exactly-once duplicate), which is in order only if the broker's open
+	// transaction with that identifier was returned at some time.
 	var r *Recv
-	for i := len(f.Recvs) - 1; i >= 0; i-- {
-		x := f.Recvs[i]
-		if x.Out != nil && x.Out.ID == p.ID && x.Out.QoS == want {
+	for _, x := range f.Recvs {
+		if x.Out != nil && x.Out.ID == p.ID && x.Out.QoS == want && x.AckWire == 0 {
 			r = x
 			break
+		}
+	}
+	if r == nil {
+		var open *OutMsg
+		if sess := w.Broker.Sessions[f.O.ClientID]; sess != nil {
+			for _, o := range sess.Out {
+				if o.ID == p.ID && o.QoS == want && o.Stage == 1 && o.Sends > 0 {
+					open = o
+				}
+			}
+		}
+		for i := len(f.Recvs) - 1; i >= 0; i-- {
+			x := f.Recvs[i]
+			if open != nil && x.Out == open {
+				r = x
+				break
+			}
+			if open == nil && x.Out != nil && x.Out.ID == p.ID && x.Out.QoS == want {
+				r = x
+				break
+			}
 		}
 	}
 	if r == nil {
@@ -1082,6 +1107,21 @@ func (m *monC04) Recv(f *Flow, r *Recv) {
 	if r.Out.Sends > 1 {
 		w.Probe("q2_retransmission_seen")
 	}
+	// Ownership is taken by the very call that returned r: any earlier
+	// return of the same message by this process was followed by a
+	// ReadSlices invocation. The reception record may be delayed by storage
+	// errors (the call fails and retries), never skipped, and the pending
+	// PUBREC survives connection loss: within one process a retransmission
+	// is not returned again. (After a restart the documented window of a
+	// failed record Save allows it.)
+	if f.S != nil && !f.S.dead {
+		for _, x := range f.Recvs[:r.Idx] {
+			if x.Out == r.Out && x.Gen == r.Gen && x.NextInvoke != 0 {
+				w.Violate("C04", "returned-twice", "same-process", "ReadSlices returned message %d (%q, id %#04x, %d bytes) which the same process had been handed as message %d at step %d (ownership taken at step %d); the broker sent it %d times and its PUBREL never ended the cycle", r.Idx, trunc(r.Topic, 24), r.Out.ID, len(r.Out.Payload), x.Idx, x.Step, x.NextInvoke, r.Out.Sends)
+				break
+			}
+		}
+	}
 }
 
 func (m *monC04) Final(f *Flow) {
@@ -1095,6 +1135,27 @@ func (m *monC04) Final(f *Flow) {
 	sess := w.Broker.Sessions[f.O.ClientID]
 	if sess == nil {
 		return
+	}
+	// a message the client confirmed (PUBREC) was handed to the application
+	// at some point: a reception record left over from a finished cycle
+	// must not swallow the next message with that identifier
+	if !f.O.Clean && len(f.DamagedGen) == 0 && len(f.Hostiles) == 0 {
+		for _, o := range sess.Out {
+			if o.QoS != 2 || o.PubrecN == 0 {
+				continue
+			}
+			returned := false
+			for _, r := range f.Recvs {
+				if r.Out == o {
+					returned = true
+					break
+				}
+			}
+			if !returned {
+				w.Violate("C04", "confirmed-never-returned", "q2", "the client answered the PUBLISH %q (id %#04x, sent %d times) with PUBREC %d times but ReadSlices never returned it: a reception record of an earlier cycle with that identifier was still in place", trunc(o.Topic, 24), o.ID, o.Sends, o.PubrecN)
+				break
+			}
+		}
 	}
 	for _, o := range sess.Out {
 		if o.QoS == 2 && o.Stage != 3 && o.Sends > 0 {
